@@ -414,6 +414,36 @@ def run(case, ctx):
                             'passes %r -> %r, failures %r -> %r after adding '
                             'a null %s' % (v.passes, v2.passes, v.failures,
                                            v2.failures, k))
+        # the same relation with the default type repair switched on (no
+        # reference for the verdicts themselves there: repair may convert
+        # the column): every null kind in turn, no other verdict moves
+        kwr = dict(kw, repair=True)
+        okr, vr = quiet(verify_df, df.copy(), copy.deepcopy(
+            case['constraints']), **kwr)
+        if okr:
+            base = {ff: dict(fr.items()) for (ff, fr) in vr.fields.items()}
+            for k2 in missing[:4]:
+                c3 = copy.deepcopy(case['constraints'])
+                c3['fields'][f][k2] = None
+                ok3, v3 = quiet(verify_df, df.copy(), c3, **kwr)
+                if not ok3:
+                    out.violate('null-constraint-insertion', v3.bucket(),
+                                'repair on, adding %s: null to field %r: %s'
+                                % (k2, f, v3.detail()))
+                    break
+                got3 = {ff: {kk: vv for (kk, vv) in fr.items()
+                             if not (ff == f and kk == k2)}
+                        for (ff, fr) in v3.fields.items()}
+                if {ff: {kk: bool(vv) for (kk, vv) in fr.items()}
+                        for (ff, fr) in got3.items()} != {
+                        ff: {kk: bool(vv) for (kk, vv) in fr.items()}
+                        for (ff, fr) in base.items()}:
+                    out.violate('null-constraint-insertion',
+                                'repair-on:other-verdict-changed:' + k2,
+                                'with repair on, adding %s: null to field '
+                                '%r changed another verdict: %r -> %r'
+                                % (k2, f, base, got3))
+                    break
         break
     return out
 
